@@ -118,17 +118,28 @@ def translators():
     gen = COQ / "theories" / "Gen"
     gen.mkdir(parents=True, exist_ok=True)
     outputs = TRANSLATOR_OUTPUTS
-    for script in sorted(tdir.glob("*2coq.py")):
-        rc, out = run([PY, "-B", str(script), str(REPO), str(gen)], timeout=120)
-        if rc != 0:
-            failures[script.name] = out[-2000:]
-            # the source no longer has a shape the translator understands: the obligation is
-            # broken (reported by the property's check).  So that the search for a concrete failing
-            # input can still run, the model falls back to the last translation of the pinned
-            # source, kept under translators/baseline/.
-            base = tdir / "baseline" / outputs.get(script.name, "")
-            if base.is_file():
-                shutil.copy(base, gen / base.name)
+    tmp = Path(tempfile.mkdtemp(prefix="cminx_gen_"))
+    try:
+        for script in sorted(tdir.glob("*2coq.py")):
+            rc, out = run([PY, "-B", str(script), str(REPO), str(tmp)], timeout=120)
+            name = outputs.get(script.name, "")
+            if rc != 0:
+                failures[script.name] = out[-2000:]
+                # the source no longer has a shape the translator understands: the obligation is
+                # broken (reported by the property's check).  So that the search for a concrete failing
+                # input can still run, the model falls back to the last translation of the pinned
+                # source, kept under translators/baseline/.
+                src = tdir / "baseline" / name
+            else:
+                src = tmp / name
+            # only touch Gen/<file> when its content changes, so that make does not rebuild the
+            # dependants on every run
+            if src.is_file():
+                dst = gen / name
+                if not dst.exists() or dst.read_bytes() != src.read_bytes():
+                    shutil.copy(src, dst)
+    finally:
+        shutil.rmtree(tmp, ignore_errors=True)
     return failures
 
 
